@@ -50,6 +50,20 @@ var erc20s = []string{
 	"0x3333333333333333333333333333333333333333",
 }
 
+// Period lengths the property means, as literals: block time 1.5 s => 57,600
+// blocks per day; a day / 7 days / 30 days / 365 days. The reference window
+// uses these numbers; the code's own BridgeTransferLimit.BlockLimit() is
+// compared with them at start-up (verdict period-length:<period>).
+const blocksPerDay = int64(57_600)
+
+var periodBlocks = map[string]int64{
+	"NONE": 0, "ABSENT": 0,
+	"DAILY":   57_600,     // 1 day
+	"WEEKLY":  403_200,    // 7 days
+	"MONTHLY": 1_728_000,  // 30 days
+	"YEARLY":  21_024_000, // 365 days
+}
+
 var maxInt = new(big.Int).Sub(new(big.Int).Lsh(big.NewInt(1), 256), big.NewInt(1)) // largest sdk math.Int
 
 type env struct {
@@ -132,7 +146,7 @@ func run(r *report.Run, shard, nshards int, replayFile string) {
 		"limit-reconfig: settings (limit {500,1000} x {DAILY,WEEKLY} x U1 exempt?, NONE) S1, send@h0, S2, send x 6 heights, send; " +
 		"limit: per scenario (coverage.limit_scenarios: period, limit, kinds, D) every sequence (no merging of states) of <= D signed sends, each step = kind {limited U1/U2, exempt EX, POOR = limited without funds, UNM = unmapped denom, FREE = token without limit}(amount) x height in {h0,h0+1,h0+W-1,h0+W,h0+W+1,h0+2W}, heights non-decreasing; a case is distinct by (period, limit, kind, amount, height index, reference window state, outcome)"
 	r.Assumptions = []string{
-		"'any one limit window' is read as the code's tumbling window: a window opens at the first ACCEPTED non-exempt transfer after the previous window lapsed (height - start >= BlockLimit(period)) and lasts BlockLimit blocks; a sliding-window reading is NOT checked (sequences in which more than the limit is accepted within fewer than BlockLimit blocks across a window boundary are counted in coverage.sliding_window_exceeding_sequences, informational)",
+		"'any one limit window' is read as the code's tumbling window: a window opens at the first ACCEPTED non-exempt transfer after the previous window lapsed (height - start >= W(period)) and lasts W(period) blocks, W = 57,600 blocks per day (1.5 s blocks) x {1, 7, 30, 365} days as literals in the check (DAILY 57,600; WEEKLY 403,200; MONTHLY 1,728,000; YEARLY 21,024,000), independent of the repository's util/blocks constants, which are compared with these numbers at start-up (period-length:<period>); a sliding-window reading is NOT checked (sequences in which more than the limit is accepted within fewer than BlockLimit blocks across a window boundary are counted in coverage.sliding_window_exceeding_sequences, informational)",
 		"the limit counts transfer amounts (without tax); the limit scenarios configure no tax; cancelled transfers do not give allowance back (not required by the property)",
 		"a send whose total a+floor(a*r) does not fit sdk math.Int (256 bits), or whose intermediate product a*numerator(r) / the rate's numerator or denominator does not fit, may be rejected - also by a panic recovered by baseapp.runTx (harness: res.Stage==\"panic\") - provided nothing changes in the skyway and bank stores; such rejections are counted in coverage.panics_recovered_no_state_change / representable_rejected_intermediate_overflow",
 		"a limit of 0 and an unset (nil) limit both mean: no non-exempt transfer is accepted in any window (accepted total <= 0); an unset limit reads back from the store as 0; scenarios with limit 0 / nil exist for every real period and every store path (coverage.limit_scenarios)",
@@ -150,6 +164,9 @@ func run(r *report.Run, shard, nshards int, replayFile string) {
 	if replayFile != "" {
 		e.replay(replayFile)
 		return
+	}
+	if shard == 0 {
+		e.checkPeriodLengths()
 	}
 	part := os.Getenv("C15_PART") // development switch: run one part only (reported as a cap)
 	if part != "" {
@@ -181,6 +198,23 @@ func run(r *report.Run, shard, nshards int, replayFile string) {
 	r.Extra["limit_failed_later_in_handler"] = e.failedLater
 	r.Extra["limit_exempt_or_unlimited_sends"] = e.exemptSends
 	r.Extra["keeper_seam_rejections_checked"] = e.keeperSeam
+}
+
+// checkPeriodLengths compares the code's window length of every real period
+// with the literal number of blocks the property means.
+func (e *env) checkPeriodLengths() {
+	for _, p := range []string{"DAILY", "WEEKLY", "MONTHLY", "YEARLY"} {
+		got := (&skywaytypes.BridgeTransferLimit{LimitPeriod: skywaytypes.LimitPeriod(skywaytypes.LimitPeriod_value[p])}).BlockLimit()
+		e.r.Case(fmt.Sprintf("period-length|%s|%d", p, got))
+		if got != periodBlocks[p] {
+			e.violate(explore.Failf("period-length:"+p, "BridgeTransferLimit.BlockLimit() for %s is %d blocks; %s at 57,600 blocks per day (1.5 s blocks) is %d blocks (difference %d blocks = %.2f days)",
+				p, got, p, periodBlocks[p], periodBlocks[p]-got, float64(periodBlocks[p]-got)/float64(blocksPerDay)),
+				map[string]interface{}{"part": "period-length", "period": p}, 0)
+		}
+	}
+	if got := (&skywaytypes.BridgeTransferLimit{LimitPeriod: skywaytypes.LimitPeriod_NONE}).BlockLimit(); got != 0 {
+		e.violate(explore.Failf("period-length:NONE", "BlockLimit() for NONE is %d", got), map[string]interface{}{"part": "period-length", "period": "NONE"}, 0)
+	}
 }
 
 type pending struct {
@@ -682,12 +716,16 @@ func (e *env) newCfg(period string, limit *big.Int, depth int, level int) *limCf
 		}
 		c.period = skywaytypes.LimitPeriod(v)
 	}
-	c.wlen = (&skywaytypes.BridgeTransferLimit{LimitPeriod: c.period}).BlockLimit()
+	c.wlen = periodBlocks[period] // the property's period length, NOT the code's BlockLimit()
 	wl := c.wlen
 	if wl == 0 { // NONE / ABSENT: no window; use the daily offsets as plain heights
-		wl = 57_600
+		wl = blocksPerDay
 	}
 	c.heights = []int64{h0, h0 + 1, h0 + wl - 1, h0 + wl, h0 + wl + 1, h0 + 2*wl}
+	if period == "YEARLY" {
+		// also 360 days (12 x 30) and 364 days (52 x 7) after the window opened: still inside a 365-day window
+		c.heights = []int64{h0, h0 + 1, h0 + 360*blocksPerDay, h0 + 364*blocksPerDay, h0 + wl - 1, h0 + wl, h0 + wl + 1, h0 + 2*wl}
+	}
 	half := new(big.Int).Quo(limit, big.NewInt(2))
 	one := big.NewInt(1)
 	lp1 := new(big.Int).Add(limit, one)
@@ -1136,6 +1174,8 @@ func (e *env) replay(file string) {
 				return
 			}
 		}
+	case "period-length":
+		e.checkPeriodLengths()
 	case "reconfig":
 		var c reconfCase
 		must(json.Unmarshal(raw, &c))
